@@ -59,9 +59,14 @@ def vary_spacing(rng, t, p=0.5):
 ALLOWED_IGNORED = ("pass", "print", "import", "from", "global", "doc")
 
 
-def gen_leaf(rng, cnt, fnames=(), in_func=False):
+def gen_leaf(rng, cnt, fnames=(), in_func=False, loop=None):
     """-> ("leaf", template, meta); meta = ("mark", k) for a statement whose number k must show up in
-    the firmware, ("allowed", kind) for a line of the fixed set that may disappear, ("plain",)"""
+    the firmware, ("allowed", kind) for a line of the fixed set that may disappear, ("plain",),
+    ("continue", "loop"|"main") for a `continue` whose innermost enclosing loop is a for/while
+    (firmware: `continue;`) or the main loop (firmware: `return;` in loop()).
+    loop = None (not inside any loop: no `continue`), "loop" or "main"."""
+    if loop is not None and rng.random() < 0.12:
+        return ("leaf", "continue", ("continue", loop))
     r = rng.random()
     k = cnt.next()
     if r < 0.40:
@@ -90,35 +95,36 @@ def gen_leaf(rng, cnt, fnames=(), in_func=False):
     return ("leaf", f"{rng.choice(list(fnames))}({O0})", ("plain",))
 
 
-def gen_body(rng, cnt, depth, maxdepth, fnames=(), n=None):
+def gen_body(rng, cnt, depth, maxdepth, fnames=(), n=None, loop=None):
     out = []
     n = n if n is not None else rng.randint(1, 3)
     for _ in range(n):
-        out += gen_stmt(rng, cnt, depth, maxdepth, fnames)
+        out += gen_stmt(rng, cnt, depth, maxdepth, fnames, loop)
     return out
 
 
-def gen_stmt(rng, cnt, depth, maxdepth, fnames=()):
-    """-> list of sibling nodes (a chain yields several)"""
+def gen_stmt(rng, cnt, depth, maxdepth, fnames=(), loop=None):
+    """-> list of sibling nodes (a chain yields several); loop: the innermost enclosing loop
+    (None | "loop" = for/while | "main" = the main loop), inherited by if/elif/else/try/except bodies"""
     if depth >= maxdepth or rng.random() < 0.45:
-        return [gen_leaf(rng, cnt, fnames)]
+        return [gen_leaf(rng, cnt, fnames, loop=loop)]
     r = rng.random()
     k = cnt.next()
     if r < 0.45:
-        nodes = [("block", "if", f"if{M1}x{O1}>{O1}{k}{O0}:", gen_body(rng, cnt, depth + 1, maxdepth, fnames))]
+        nodes = [("block", "if", f"if{M1}x{O1}>{O1}{k}{O0}:", gen_body(rng, cnt, depth + 1, maxdepth, fnames, loop=loop))]
         for _ in range(rng.choice([0, 0, 1, 1, 2])):
-            nodes.append(("block", "elif", f"elif{M1}x{O1}>{O1}{cnt.next()}{O0}:", gen_body(rng, cnt, depth + 1, maxdepth, fnames)))
+            nodes.append(("block", "elif", f"elif{M1}x{O1}>{O1}{cnt.next()}{O0}:", gen_body(rng, cnt, depth + 1, maxdepth, fnames, loop=loop)))
         if rng.random() < 0.6:
-            nodes.append(("block", "else", f"else{O0}:", gen_body(rng, cnt, depth + 1, maxdepth, fnames)))
+            nodes.append(("block", "else", f"else{O0}:", gen_body(rng, cnt, depth + 1, maxdepth, fnames, loop=loop)))
         return nodes
     if r < 0.65:
-        return [("block", "while", f"while{M1}x{O1}<{O1}{k}{O0}:", gen_body(rng, cnt, depth + 1, maxdepth, fnames) + [("leaf", f"x{O1}+={O1}1", ("plain",))])]
+        return [("block", "while", f"while{M1}x{O1}<{O1}{k}{O0}:", gen_body(rng, cnt, depth + 1, maxdepth, fnames, loop="loop") + [("leaf", f"x{O1}+={O1}1", ("plain",))])]
     if r < 0.88:
-        return [("block", "for", f"for{M1}i{depth}{M1}in{M1}range({O0}{k % 5 + 1}{O0}){O0}:", gen_body(rng, cnt, depth + 1, maxdepth, fnames))]
-    nodes = [("block", "try", f"try{O0}:", gen_body(rng, cnt, depth + 1, maxdepth, fnames))]
+        return [("block", "for", f"for{M1}i{depth}{M1}in{M1}range({O0}{k % 5 + 1}{O0}){O0}:", gen_body(rng, cnt, depth + 1, maxdepth, fnames, loop="loop"))]
+    nodes = [("block", "try", f"try{O0}:", gen_body(rng, cnt, depth + 1, maxdepth, fnames, loop=loop))]
     for i in range(rng.choice([1, 1, 2])):
         h = rng.choice([f"except{M1}Exception{O0}:", f"except{M1}ValueError{O0}:", f"except{M1}Exception{M1}as{M1}err{O0}:", f"except{O0}:"]) if i == 0 else f"except{O0}:"
-        nodes.append(("block", "except", h, gen_body(rng, cnt, depth + 1, maxdepth, fnames)))
+        nodes.append(("block", "except", h, gen_body(rng, cnt, depth + 1, maxdepth, fnames, loop=loop)))
     return nodes
 
 
@@ -138,7 +144,7 @@ def gen_program(rng, maxdepth=3, main_loop=None):
         nodes = gen_stmt(rng, cnt, 0, maxdepth, fnames)
         tops.append(("chain", nodes))
     if main_loop if main_loop is not None else rng.random() < 0.75:
-        tops.append(("main", f"while{M1}True{O0}:", gen_body(rng, cnt, 1, maxdepth, fnames, n=rng.randint(1, 4))))
+        tops.append(("main", f"while{M1}True{O0}:", gen_body(rng, cnt, 1, maxdepth, fnames, n=rng.randint(1, 4), loop="main")))
     return tops
 
 
